@@ -40,6 +40,7 @@ pub fn producer_cfg(g: &mut Rng) -> ProgCfg {
         max_points_knob_off: 0,
         custom_xml: false,
         small: g.chance(1, 2),
+        big_permille: 25,
     }
 }
 
@@ -122,6 +123,8 @@ pub fn note_layout(st: &mut RunStats, enc: &Encoded, layout: &Layout) {
     st.probe("non_data_packet_first", s.non_data_first);
     st.probe("non_data_packet_between_data_packets", s.non_data_middle);
     st.probe("non_data_packet_last", s.non_data_last);
+    st.probe("data_packet_longer_than_60000_bytes", s.max_packet_len > 60_000);
+    st.probe("stream_slice_longer_than_32767_bytes", s.max_stream_len_in_packet > 32_767);
     st.probe("xml_lexical_variants", layout.lexical);
     st.probe("optional_type_attributes_omitted", layout.omit_defaults);
     st.probe("sections_shuffled_and_padded", layout.shuffle);
@@ -236,7 +239,7 @@ impl Prop for C03 {
     fn meta(&self) -> Meta {
         Meta {
             level: "exploration",
-            rule: "seeded scenes (C01 generator: 0-4 items, <= 200 points per cloud, all record types and widths, extension attributes, full metadata string pool; producer-only features: missing guids, arbitrary bounds, partial limits, library version) encoded by the independent producer under a seeded layout schedule: per cloud a packetisation (whole / k points per packet / ragged: independent byte counts per stream and packet biased to 0, 1, all, cuts inside multi-byte values; up to 4/12/60 packets), index and ignored packets before, between and after data packets, shuffled section order with the XML anywhere and unreferenced padding, omitted optional type attributes (Integer minimum/maximum, scale, offset, precision), XML lexical variants (attribute order and quoting, whitespace incl. CRLF, comments, processing instructions, CDATA vs escaped text vs character references vs mixed, empty-element tags, number formats, missing declaration, missing empty data3D/images2D). The producer's output must pass refcodec's own fsck and decode to the scene (self check, else harness error). The crate's reader on a SimDisk with seeded short reads must list the encoded metadata, yield exactly recordCount points with the encoded values, and return every blob. Distinct = hash(scene shape, packet counts, layout switches, section residues); non-trivial = at least one point or payload".into(),
+            rule: "seeded scenes (C01 generator: 0-4 items, <= 400 points per cloud and in 2.5 % of the runs one cloud of 3 000 - 70 000 points or a blob of 64 - 200 KiB, all record types and widths, extension attributes, full metadata string pool; producer-only features: missing guids, arbitrary bounds, partial limits, library version) encoded by the independent producer under a seeded layout schedule: per cloud a packetisation (whole / k points per packet / ragged: independent byte counts per stream and packet biased to 0, 1, all, cuts inside multi-byte values; up to 4/12/60 packets), index and ignored packets before, between and after data packets, shuffled section order with the XML anywhere and unreferenced padding, omitted optional type attributes (Integer minimum/maximum, scale, offset, precision), XML lexical variants (attribute order and quoting, whitespace incl. CRLF, comments, processing instructions, CDATA vs escaped text vs character references vs mixed, empty-element tags, number formats, missing declaration, missing empty data3D/images2D). The producer's output must pass refcodec's own fsck and decode to the scene (self check, else harness error). The crate's reader on a SimDisk with seeded short reads must list the encoded metadata, yield exactly recordCount points with the encoded values, and return every blob. Distinct = hash(scene shape, packet counts, layout switches, section residues); non-trivial = at least one point or payload".into(),
             assumptions: vec![
                 "legal layout space is conservative: only choices both the format description and libE57Format-written files support".into(),
                 "prototypes have at least one sized record (a legal all-constant prototype is a listed known finding class, excluded from generation)".into(),
@@ -254,6 +257,8 @@ impl Prop for C03 {
                 "xml_lexical_variants".into(),
                 "optional_type_attributes_omitted".into(),
                 "sections_shuffled_and_padded".into(),
+                "data_packet_longer_than_60000_bytes".into(),
+                "stream_slice_longer_than_32767_bytes".into(),
             ],
         }
     }
@@ -262,7 +267,7 @@ impl Prop for C03 {
     }
     fn plan(&self, tier: Tier) -> Plan {
         match tier {
-            Tier::Quick => Plan { runs: 4000, time_box_s: None, isolation: Isolation::Threads },
+            Tier::Quick => Plan { runs: 12000, time_box_s: None, isolation: Isolation::Threads },
             Tier::Thorough => Plan { runs: 600_000, time_box_s: Some(480), isolation: Isolation::Threads },
         }
     }
